@@ -312,7 +312,7 @@ class TextFormat:
             left_side, right_side = f'{number_value:#{thousands}.{decimals}f}'.split('.')
             right_side = right_side.rstrip('0')
         else:
-            left_side = f'{int(self._round_half_up(number_value, 0)):{thousands}}'
+            left_side = f'{int(number_value.quantize(Decimal(1), rounding=ROUND_HALF_UP)):{thousands}}'
             right_side = None
         left_side = left_side.lstrip('0')
 
